@@ -10,6 +10,10 @@ every statement x subject through TryCase / Guard{T,F,R} / Body / FallOff, check
 that tie the operational result to the declarative Sat (SelSound, SkipSound), BindComplete,
 OneBody, GuardOrder, ExcFinal, and publishes every statement and every final state (expected log
 of guard / body events with the visible bindings, == calls on K.E, exception type).
+spec/MatchStmtImpl.tla transcribes MatchCaseNodes.py (test tree that fills subject temps, then the
+target assignments, which_alternative for or-patterns): ImplAgrees = the two-phase strategy equals
+the reference on every state; with one of the real code's departures from CPython's order switched
+on (three refute configurations) TLC must produce a counterexample.
 Binding B1, three-way: every statement is rendered as a function; P = CPython runs the module,
 C = the module compiled by Cython from the snapshot, with the subject untyped (O) and, where the
 patterns make it relevant, typed list / tuple / dict / C long / cdef class (restricted to the
@@ -27,7 +31,11 @@ import core
 import lib_match as lm
 
 PROP = "C31"
-CFG = {"quick": "MatchStmt_quick", "thorough": "MatchStmt_thorough"}
+CFG = {"quick": "MatchStmtImpl_quick", "thorough": "MatchStmtImpl_thorough"}
+# the transcription of MatchCaseNodes.py with one departure from CPython's order switched on: TLC must refute ImplAgrees
+REFUTE = {"MatchStmtImpl_refute1": "KF-C31-1 (as-name takes the pattern's value)",
+          "MatchStmtImpl_refute4": "KF-C31-4 (duplicate-key test hoisted)",
+          "MatchStmtImpl_refute7": "KF-C31-7 (duplicate-attribute test hoisted)"}
 BATCH = {"quick": 56, "thorough": 110}     # functions per compiled module
 MAX_TYPED = 2                              # typed variants per statement
 QUARANTINE = {"quick": 3, "thorough": 8}   # functions predicted to break the compiler: one module each, this many per feature
@@ -172,7 +180,7 @@ def run(tier, seed):
     jobs = int(os.environ.get("VERIF_JOBS", "0")) or min(8, core.NCPU)
 
     # ---- model checking: statements and their final states with the expected observation
-    r = core.tlc_or_die("MatchStmt", cfg=CFG[tier], timeout=900 if tier == "quick" else 3000, workers=workers,
+    r = core.tlc_or_die("MatchStmtImpl", cfg=CFG[tier], timeout=900 if tier == "quick" else 3000, workers=workers,
                         env={"C31_SEED": seed}, coverage=True)
     subjects, stmts, leaves = None, {}, collections.defaultdict(list)
     for rec in r.printed:
@@ -269,10 +277,20 @@ def run(tier, seed):
         mods.append({"name": "c31q%d%s" % (sid, ty), "funcs": [(n, lm.function(n, stmts[sid], ty, True))]})
     finfo = {n: (sid, ty) for n, sid, ty in funcs + qsel}
 
-    with concurrent.futures.ThreadPoolExecutor(2) as ex:
+    def refute(cfg):
+        rr = core.tlc("MatchStmtImpl", cfg=cfg, workers=2, timeout=900)
+        return cfg, rr.violation, rr.summary()
+
+    with concurrent.futures.ThreadPoolExecutor(3) as ex:
         fut_p = ex.submit(lm.run_items, wd, "P", ppath, subjects, pitems, "p")
+        fut_r = [ex.submit(refute, c) for c in sorted(REFUTE)]
         mods = build_robust(mods, jobs)
         resP = fut_p.result()
+        refuted = [f.result() for f in fut_r]
+    for cfg, viol, summ in refuted:
+        cov["tlc"].append(dict(summ, config=cfg, expected="ImplAgrees violated", violation=viol))
+        if viol != "ImplAgrees":
+            core.die("the transcription with %s switched on was not refuted by TLC (%s: %s)" % (REFUTE[cfg], cfg, viol))
     phase_s["build+cpython_leg"] = round(time.time() - t0 - phase_s["tlc"], 1)
 
     n_drift = 0
